@@ -10,22 +10,25 @@
      c18    : only the panic shape of the observation (positions equal to -2) and the
               allocation counter are compared (real-time safety).                      *)
 
-open Model
-
 let rec pos_of_int n =
-  if n = 1 then XH
-  else if n land 1 = 0 then XO (pos_of_int (n lsr 1))
-  else XI (pos_of_int (n lsr 1))
+  if n = 1 then Model.XH
+  else if n land 1 = 0 then Model.XO (pos_of_int (n lsr 1))
+  else Model.XI (pos_of_int (n lsr 1))
 
 let z_of_int n =
-  if n = 0 then Z0 else if n > 0 then Zpos (pos_of_int n) else Zneg (pos_of_int (-n))
+  if n = 0 then Model.Z0
+  else if n > 0 then Model.Zpos (pos_of_int n)
+  else Model.Zneg (pos_of_int (-n))
 
 let rec int_of_pos = function
-  | XH -> 1
-  | XO p -> 2 * int_of_pos p
-  | XI p -> (2 * int_of_pos p) + 1
+  | Model.XH -> 1
+  | Model.XO p -> 2 * int_of_pos p
+  | Model.XI p -> (2 * int_of_pos p) + 1
 
-let int_of_z = function Z0 -> 0 | Zpos p -> int_of_pos p | Zneg p -> -int_of_pos p
+let int_of_z = function
+  | Model.Z0 -> 0
+  | Model.Zpos p -> int_of_pos p
+  | Model.Zneg p -> -int_of_pos p
 
 let ints_of_string s =
   String.split_on_char ' ' s |> List.filter (fun x -> x <> "") |> List.map int_of_string
@@ -89,8 +92,8 @@ let () =
              let tag, inp = match a with t :: r -> (t, r) | [] -> (-1, []) in
              incr records;
              Hashtbl.replace tags tag (1 + try Hashtbl.find tags tag with Not_found -> 0);
-             let v = check (z_of_int tag) (List.map z_of_int inp) (List.map z_of_int b) in
-             let model = List.map int_of_z v.v_model in
+             let v = Model.check (z_of_int tag) (List.map z_of_int inp) (List.map z_of_int b) in
+             let model = List.map int_of_z v.Model.v_model in
              let impl_panic = List.mem (-2) b in
              if impl_panic then incr panics;
              let ag, ho =
@@ -104,7 +107,7 @@ let () =
                  end;
                  (same, same && alloc_ok)
                end
-               else (v.v_agree, v.v_holds)
+               else (v.Model.v_agree, v.Model.v_holds)
              in
              if ag then incr agree;
              if ho then incr holds;
@@ -128,7 +131,7 @@ let () =
              end;
              if !nv < !nvcases && !records mod 211 = 1 then begin
                incr nv;
-               vcases := (tag, inp, b, v.v_agree, v.v_holds, model) :: !vcases
+               vcases := (tag, inp, b, v.Model.v_agree, v.Model.v_holds, model) :: !vcases
              end
          | _ ->
              incr records;
